@@ -348,6 +348,7 @@ fn main() {
         drop_types: BTreeSet::new(),
         backparam_fns: BTreeMap::new(),
         mutref_params: BTreeMap::new(),
+        field_types: BTreeMap::new(),
         ghost_structs: BTreeMap::new(),
         dropped_fields: BTreeMap::new(),
         unit_fns: BTreeSet::new(),
@@ -363,6 +364,7 @@ fn main() {
                     continue;
                 }
                 let fname = f.ident.as_ref().unwrap().to_string();
+                t.field_types.insert((ss.name.clone(), fname.clone()), f.ty.to_token_stream().to_string().replace(' ', ""));
                 let tname = type_last_ident(&f.ty).unwrap_or_default();
                 if tname == "Semaphore" || tname.starts_with("Atomic") {
                     t.prim_fields.insert(fname.clone());
